@@ -47,7 +47,7 @@ pub fn case(line: &str) -> String {
     let base = outcome(&base_text, fuel);
     let mut bad = vec![];
     let mut n = 0;
-    let mut check = |rule: &str, text: &str, bad: &mut Vec<Value>| {
+    let check = |rule: &str, text: &str, bad: &mut Vec<Value>| {
         let o = outcome(text, fuel);
         if !same(&base, &o) {
             bad.push(json!({"rule": rule, "original": base_text, "rewritten": text, "original_outcome": base, "rewritten_outcome": o}));
